@@ -36,6 +36,35 @@ Qed.
 Lemma chunks_nil : forall {A} k, chunks k (@nil A) = [].
 Proof. reflexivity. Qed.
 
+(* chunk sizes depend only on the length of the list *)
+Lemma chunks_fuel_lengths : forall {A B} fuel k (l : list A) (m : list B),
+  length l = length m ->
+  map (@length A) (chunks_fuel fuel k l) = map (@length B) (chunks_fuel fuel k m).
+Proof.
+  intros A B fuel k. induction fuel as [|f IH]; intros l m H; [reflexivity|].
+  destruct l as [|x l]; destruct m as [|y m]; try discriminate; [reflexivity|].
+  cbn [chunks_fuel map]. f_equal.
+  - rewrite !firstn_length, H. reflexivity.
+  - apply IH. rewrite !skipn_length, H. reflexivity.
+Qed.
+
+Lemma chunks_lengths : forall {A B} k (l : list A) (m : list B),
+  length l = length m -> map (@length A) (chunks k l) = map (@length B) (chunks k m).
+Proof. intros A B k l m H. unfold chunks. rewrite H. apply chunks_fuel_lengths. exact H. Qed.
+
+(* a list of lists is determined by its concatenation and its block lengths *)
+Lemma concat_lengths_inj : forall {A} (a b : list (list A)),
+  concat a = concat b -> map (@length A) a = map (@length A) b -> a = b.
+Proof.
+  intros A. induction a as [|x a IH]; intros b Hc Hl; destruct b as [|y b]; try discriminate; auto.
+  simpl in *. injection Hl as Hxy Hl.
+  assert (x = y /\ concat a = concat b) as [-> Hc'].
+  { clear IH Hl. revert y Hxy Hc. induction x as [|e x IHx]; intros y Hxy Hc; destruct y as [|e' y]; try discriminate.
+    - auto.
+    - simpl in *. injection Hc as -> Hc. injection Hxy as Hxy. destruct (IHx y Hxy Hc) as [-> ?]. auto. }
+  f_equal. apply IH; auto.
+Qed.
+
 (* ------------------------------------------------------------------ *)
 (* loader_batches: the BatchSampler clauses *)
 
@@ -96,6 +125,14 @@ Proof.
   - eapply Permutation_in; [apply Permutation_sym; exact H|]. apply in_seq. lia.
 Qed.
 
+Lemma nodup_app_l : forall {A} (a b : list A), NoDup (a ++ b) -> NoDup a.
+Proof.
+  intros A a b. induction a as [|x a IH]; simpl; intro H; [constructor|].
+  inversion H as [|? ? Hn Hr]; subst. constructor.
+  - intro Hi. apply Hn. apply in_or_app. left; exact Hi.
+  - apply IH; exact Hr.
+Qed.
+
 Lemma batches_exactly_once : forall n bs order, 0 < bs ->
   Permutation order (seq 0 n) ->
   NoDup (concat (loader_batches n bs order false)) /\
@@ -118,7 +155,7 @@ Proof.
   assert (Hlen : length order = n).
   { apply Permutation_length in Hp. rewrite seq_length in Hp. exact Hp. }
   split; [|split].
-  - rewrite E in Hnd. apply NoDup_app_remove_r in Hnd. exact Hnd.
+  - rewrite E in Hnd. apply nodup_app_l in Hnd. exact Hnd.
   - intros i Hi. apply (perm_seq_in n order i Hp). rewrite E. apply in_or_app. left; exact Hi.
   - rewrite batches_lost_drop by auto. rewrite Hlen. reflexivity.
 Qed.
@@ -160,7 +197,7 @@ Proof.
   intros R rows idx H. unfold tgather. apply mapM_total.
   eapply Forall_impl; [|exact H]. intros i Hi. unfold tget.
   destruct (nth_error rows i) eqn:E; [eexists; reflexivity|].
-  apply nth_error_None in E. lia.
+  apply nth_error_None in E. cbv beta in Hi. lia.
 Qed.
 
 Lemma Forall_concat : forall {A} (P : A -> Prop) (ls : list (list A)),
@@ -254,27 +291,59 @@ Section LoaderFacts.
     rewrite Hidx in Hlens.
     assert (Hlen2 : map (@length R) (chunks (kw_batch_size kw) tf) =
                     map (@length nat) (chunks (kw_batch_size kw) (seq 0 (length tf)))).
-    { clear. unfold chunks. rewrite seq_length. generalize (length tf) at 1 3 as fuel.
-      generalize 0 as s. generalize (kw_batch_size kw) as k. intros k s fuel. revert s tf.
-      induction fuel as [|f IH]; intros s tf; [reflexivity|].
-      destruct tf as [|x r]; [reflexivity|]. cbn [chunks_fuel length seq].
-      destruct (seq s (S (length r))) as [|y q] eqn:Eq; [discriminate|].
-      cbn [map]. f_equal.
-      - rewrite !firstn_length. rewrite <- Eq, seq_length. reflexivity.
-      - rewrite <- Eq. rewrite skipn_seq'.
-        replace (S (length r) - k) with (length (skipn k (x :: r))) by (rewrite skipn_length; reflexivity).
-        apply IH. }
-    assert (Hsame : forall (a b : list (list R)), concat a = concat b -> map (@length R) a = map (@length R) b -> a = b).
-    { clear. induction a as [|x a IH]; intros b Hc Hl; destruct b as [|y b]; try discriminate; auto.
-      simpl in *. injection Hl as Hxy Hl.
-      assert (x = y /\ concat a = concat b) as [-> Hc'].
-      { clear IH Hl. revert y Hxy Hc. induction x as [|e x IHx]; intros y Hxy Hc; destruct y as [|e' y]; try discriminate.
-        - auto.
-        - simpl in *. injection Hc as -> Hc. injection Hxy as Hxy. destruct (IHx y Hxy Hc) as [-> ?]. auto. }
-      f_equal. apply IH; auto. }
+    { apply chunks_lengths. rewrite seq_length. reflexivity. }
+    pose proof (@concat_lengths_inj R) as Hsame.
     apply Hsame.
     - rewrite chunks_concat by lia. symmetry. exact Hrows.
     - rewrite Hlens, Hlen2. reflexivity.
+  Qed.
+
+  (* an epoch whose index batches concatenate to a permutation of the row
+     positions delivers a permutation of the rows *)
+  Lemma permuted_epoch : forall (ld : loader R),
+    Permutation (concat (loader_index_batches ld)) (seq 0 (length (ld_tensor_frame ld))) ->
+    exists bats, loader_epoch ld = Some bats /\ Permutation (concat bats) (ld_tensor_frame ld) /\
+                 map (@length R) bats = map (@length nat) (loader_index_batches ld).
+  Proof.
+    intros ld Hp.
+    assert (Hin : Forall (fun i => i < length (ld_tensor_frame ld)) (concat (loader_index_batches ld))).
+    { apply Forall_forall. intros i Hi. apply (perm_seq_in _ _ i Hp). exact Hi. }
+    destruct (epoch_total ld Hin) as [bats Hb]. exists bats. split; [exact Hb|].
+    destruct (epoch_rows ld bats Hb) as [Hrows Hlens]. split; [|exact Hlens].
+    destruct (ld_tensor_frame ld) as [|d tf'] eqn:Etf.
+    - simpl in Hp. apply Permutation_sym, Permutation_nil in Hp. rewrite Hp in Hrows. simpl in Hrows.
+      injection Hrows as <-. constructor.
+    - rewrite <- Etf in *. rewrite (tgather_nth _ _ d Hin) in Hrows. injection Hrows as <-.
+      eapply Permutation_trans; [apply Permutation_map; exact Hp|].
+      rewrite <- map_nth_seq. apply Permutation_refl.
+  Qed.
+
+  Lemma shuffled_epoch : forall tf kw order,
+    kw_sampling kw = Shuffled order -> Permutation order (seq 0 (length tf)) ->
+    kw_drop_last kw = false -> 0 < kw_batch_size kw ->
+    exists bats, run_loader convert df_len (SrcFrame tf) kw = Some bats /\
+                 Permutation (concat bats) tf /\
+                 map (@length R) bats = map (@length R) (chunks (kw_batch_size kw) tf).
+  Proof.
+    intros tf kw order Hs Hp Hd Hb. unfold run_loader.
+    destruct (loader_init (SrcFrame tf) kw) as [ld|] eqn:E.
+    2:{ unfold Loader.loader_init in E. simpl in E.
+        destruct (kw_batch_size kw =? 0) eqn:E0; try discriminate. apply Nat.eqb_eq in E0. lia. }
+    destruct (init_frame _ _ _ E) as [Htf [Hn [Hbs [Hpos [Hdl Hsm]]]]].
+    rewrite Hs in Hsm. simpl.
+    assert (Hidx : exists order', loader_index_batches ld = chunks (kw_batch_size kw) order' /\
+                                  Permutation order' (seq 0 (length tf))).
+    { unfold loader_index_batches, loader_batches. rewrite Hdl, Hd, Hbs, Hn.
+      destruct (length tf) eqn:El; rewrite Hsm; simpl.
+      - exists []. split; [reflexivity | constructor].
+      - exists order. split; [reflexivity | exact Hp]. }
+    destruct Hidx as [order' [Hidx Hp']].
+    assert (Hpc : Permutation (concat (loader_index_batches ld)) (seq 0 (length (ld_tensor_frame ld)))).
+    { rewrite Hidx, chunks_concat, Htf by lia. exact Hp'. }
+    destruct (permuted_epoch ld Hpc) as [bats [Hbats [Hperm Hlens]]].
+    exists bats. split; [exact Hbats|]. rewrite Htf in Hperm. split; [exact Hperm|].
+    rewrite Hlens, Hidx. symmetry. apply chunks_lengths.
+    apply Permutation_length in Hp'. rewrite seq_length in Hp'. symmetry. exact Hp'.
   Qed.
 
   (* a Dataset source behaves like the TensorFrame it materializes to, whether or
